@@ -80,6 +80,15 @@ Section C01.
     (forall h, it_protected H it' = Some h -> halg h = Some a) ->
     tok' <> tok -> decode_compact H hview parse_header tok' det = Ok it' -> verify H halg V it' kalg = Err JErr.
   Proof. exact (bitflip_fails H hview halg parse_header V). Qed.
+
+  (* general JSON serialisation: items are handed out only when the b64 values of all signatures agree (RFC 7797 s.3), so one
+     payload is never read both as base64url text and as raw bytes within one token *)
+  Theorem C01_general_items_agree_on_b64 : forall pl es det items,
+    decode_general H hview parse_header pl es det = Ok items ->
+    length items = length es /\
+    forall it1 it2, In (Ok it1) items -> In (Ok it2) items ->
+      extract_b64 (oview H hview (it_protected H it1)) = extract_b64 (oview H hview (it_protected H it2)).
+  Proof. exact (general_decode_items_agree H hview parse_header). Qed.
 End C01.
 
 Print Assumptions C01_signing_input_exact_compact.
@@ -91,3 +100,4 @@ Print Assumptions C01_alg_protected_only.
 Print Assumptions C01_decode_enforces_policy.
 Print Assumptions C01_token_determined.
 Print Assumptions C01_bitflip_fails.
+Print Assumptions C01_general_items_agree_on_b64.
